@@ -54,8 +54,8 @@ def main():
     out.append("the version after round 1; round 3, ids `r3...`: the version when round 3 was commissioned, `294ea8e`;")
     out.append("round 4, ids `r4...`: the version that met it, nothing missed; round 5, ids `r5...`: likewise the version that met")
     out.append("it - r5c12-1 did not even build under the hook wrapper of that time, which is why the wrapper now offers")
-    out.append("std's inherent methods, hook commit `15f5dd0`; rounds 6 to 9, ids `r6...` to `r9...`: the version that met them; the rows of rounds 1 to 8 under *now* were")
-    out.append("all measured once more in one go at commit `0341af4`, round 9 one commit later);")
+    out.append("std's inherent methods, hook commit `15f5dd0`; rounds 6 to 9, ids `r6...` to `r9...`: the version that met them; all rows under *now*, and the tables")
+    out.append("of B.2 and B.3, were measured once more in one go with the checks as committed at `0e96565`);")
     out.append("*now* = the checks as they stand. Round 2 and 3 sub-agents were also told which ideas the earlier rounds")
     rows = table(f"{V}/seeded/RESULTS.tsv")
     n_missed = sum(1 for r in rows if r["name"] in first and "caught" not in first[r["name"]]["verdict"] and r["name"] != "r10c14-1")
